@@ -102,6 +102,9 @@ pub struct CScript {
     /// which panics the call's worker thread (a fault after a visible side effect)
     #[serde(default)]
     pub panic_after_side: bool,
+    /// a single-result script hands its value back through an early `return`
+    #[serde(default)]
+    pub early_return: bool,
 }
 
 #[derive(Serialize, Deserialize, Clone, Debug, PartialEq)]
@@ -151,8 +154,8 @@ pub struct Plan {
     pub choices: Vec<String>,
 }
 
-// the second name has the first one as a prefix
-const HNAMES: &[&str] = &["h0", "h0x"];
+// the second name has the first one as a prefix, and contains a dot itself
+const HNAMES: &[&str] = &["h0", "h0.x"];
 const GNAMES: &[&str] = &["g0", "g1"];
 const CNAMES: &[&str] = &["c0", "c1"];
 
@@ -203,6 +206,12 @@ pub fn handler_script(name: &str, s: &HScript, other_ctx: &str, after_id: Option
                 _ => format!("[c{}a c{}bb c{}ccc] | each {{|x| $x}} | to text", k, k, k),
             }
         };
+        if ttl.as_deref() == Some("nul-topic") {
+            // an append the store refuses (NUL in the topic): it is dropped, the rest of the
+            // invocation's output is unaffected
+            out.push_str(&format!("    {} | .append $\"{}.x{}(char nul)z\"\n", input, name, k));
+            continue;
+        }
         let mut line = format!("    {} | .append {}.x{}", input, name, k);
         if *with_meta {
             line.push_str(&format!(" --meta {{k: {}, handler_id: \"spoofed\"}}", k));
@@ -313,7 +322,9 @@ pub fn cmd_script(name: &str, c: &CScript) -> String {
             out.push_str(&format!("    $items | enumerate | each {{|it| if $it.index == {} {{ error make {{msg: \"cmdboom\"}} }}; $it.item }}\n", p));
         }
         None => {
-            if items.len() == 1 {
+            if items.len() == 1 && c.early_return {
+                out.push_str(&format!("    if $leak > 0 {{ return {} }}\n    \"unreachable\"\n", items[0]));
+            } else if items.len() == 1 {
                 out.push_str(&format!("    {}\n", items[0]));
             } else {
                 out.push_str(&format!("    [{}]\n", items.join(" ")));
@@ -1115,6 +1126,9 @@ impl Run {
                 // expected shape
                 let mut want: Vec<(String, Option<TTL>, Vec<u8>, bool)> = Vec::new();
                 for (k, (_, ttl, _)) in inst.script.appends.iter().enumerate() {
+                    if ttl.as_deref() == Some("nul-topic") {
+                        continue;
+                    }
                     let t = ttl.as_ref().and_then(|x| xs::store::parse_ttl(x).ok());
                     let content: Vec<u8> = if !inst.script.rich {
                         format!("e{}", k).into_bytes()
@@ -1303,7 +1317,7 @@ impl Run {
                 }
                 let cas_fails_here = is_casfault(&log[tp]) && tp > reg_pos && writes_content(&inst.script, false);
                 let answered = by_trigger.contains_key(&tid.to_string());
-                let expects_output = inst.script.ret != Ret::Nothing || !inst.script.appends.is_empty();
+                let expects_output = inst.script.ret != Ret::Nothing || inst.script.appends.iter().any(|a| a.1.as_deref() != Some("nul-topic"));
                 if tfail && inst.script.fail_at.is_some() || cas_fails_here {
                     // must be unregistered with the error, stamped with this trigger
                     let ok = unregistered.first().map(|u| Self::meta_str(u, "frame_id").as_deref() == Some(&tid.to_string()) && Self::meta_str(u, "error").is_some()).unwrap_or(false);
@@ -2057,6 +2071,10 @@ fn gen_hscript(rng: &mut Rng, prop: &str) -> HScript {
             rng.chance(25),
         ));
     }
+    if prop == "C15" && napp > 0 && rng.chance(15) {
+        let k = rng.below(napp);
+        appends[k].1 = Some("nul-topic".to_string());
+    }
     let ret = match prop {
         "C15" => match rng.weighted(&[12, 30, 12, 12, 8, 8, 10, 8, 10]) {
             0 => Ret::Nothing,
@@ -2108,7 +2126,8 @@ pub fn generate(seed: u64, prop: &str, thorough: bool) -> Plan {
     // C10 looks at every entry point that writes content: half of its service-layer runs use the
     // command workload (streaming `.append`, command outputs), half the handler workload
     let plan_prop = prop;
-    let prop = if plan_prop == "C10" && seed & 1 == 0 { "C19" } else { plan_prop };
+    // (C06: a third of its service-layer runs use the command workload, with `.cat` probes)
+    let prop = if (plan_prop == "C10" && seed & 1 == 0) || (plan_prop == "C06" && seed % 3 == 0) { "C19" } else { plan_prop };
     let mut rng = Rng::new(seed);
     let mut ops = Vec::new();
     let nctx = rng.weighted(&[30, 50, 20]);
@@ -2169,6 +2188,7 @@ pub fn generate(seed: u64, prop: &str, thorough: bool) -> Plan {
                             uses_env: true,
                             cat_probe: no > 0 && rng.chance(25),
                             panic_after_side: false,
+                            early_return: false,
                         }
                     },
                 },
@@ -2187,6 +2207,9 @@ pub fn generate(seed: u64, prop: &str, thorough: bool) -> Plan {
             };
             let op = match op {
                 SOp::Call { name, ctx, .. } if prop == "C19" && rng.chance(12) => SOp::CasFaultCall { name, ctx },
+                SOp::Define { name, ctx, cmd } if prop == "C19" && !cmd.invalid && cmd.fail_at.is_none() && cmd.outputs.len() == 1 && !cmd.cat_probe && rng.chance(40) => {
+                    SOp::Define { name, ctx, cmd: CScript { early_return: true, ..cmd } }
+                }
                 SOp::Define { name, ctx, cmd } if prop == "C19" && !cmd.invalid && cmd.fail_at.is_none() && rng.chance(10) => {
                     SOp::Define { name, ctx, cmd: CScript { explicit_append: true, panic_after_side: true, ..cmd } }
                 }
@@ -2216,7 +2239,24 @@ pub fn generate(seed: u64, prop: &str, thorough: bool) -> Plan {
                 _ => None,
             };
             let is_stop = matches!(op, SOp::Unreg { .. });
+            // the same script defined under the same name in another context: whatever is
+            // prepared per definition (engine, scoped commands) belongs to that context
+            let twin = match &op {
+                SOp::Define { name, ctx, cmd } if (plan_prop == "C06" || plan_prop == "C19") && !cmd.invalid && nctx > 0 && rng.chance(if plan_prop == "C06" { 60 } else { 15 }) => {
+                    let cmd2 = if plan_prop == "C06" { CScript { cat_probe: !cmd.outputs.is_empty(), ..cmd.clone() } } else { cmd.clone() };
+                    Some((SOp::Define { name: *name, ctx: *ctx, cmd: cmd2.clone() }, SOp::Define { name: *name, ctx: (*ctx + 1) % (nctx + 1), cmd: cmd2 }))
+                }
+                _ => None,
+            };
+            let op = match &twin {
+                Some((first, _)) => first.clone(),
+                None => op,
+            };
             ops.push(op);
+            if let Some((_, second)) = twin {
+                ops.push(SOp::Foreign { ctx: rng.below(nctx + 1) });
+                ops.push(second);
+            }
             if let Some(r) = redefine {
                 ops.push(r);
             }
@@ -2232,6 +2272,13 @@ pub fn generate(seed: u64, prop: &str, thorough: bool) -> Plan {
                     ops.push(SOp::GcDrain);
                 }
                 ops.push(SOp::Restart { crash: rng.chance(50) });
+            }
+        }
+        if plan_prop == "C06" {
+            for c in 0..=nctx {
+                for nm in 0..2 {
+                    ops.push(SOp::Call { name: nm, ctx: c, arg: 98 });
+                }
             }
         }
         if prop == "C17" {
